@@ -18,7 +18,9 @@ TECHNIQUE = ('exhaustive enumeration of small prime-order groups against their d
              'arithmetic and OpenSSL')
 RULE = (
     'Toy arms: for prime-order curves over small fields (three ways of writing a: the literal '
-    '-3, p-3, generic incl. a=0) every ordered pair of group elements incl. infinity goes through '
+    '-3, p-3, generic incl. a=0; 11 curve objects with n <= 307 in the quick tier, 99 with n <= 2027 '
+    'in the thorough tier, of which those with n <= 320 / 1300 are enumerated completely and the '
+    'larger ones by edge rows {0,1,2,(n+-1)/2,n-2,n-1} plus sampled rows) every ordered pair of group elements incl. infinity goes through '
     'Add/Subtract/AddJacobian/BatchAdd/BatchAddX/BatchAddSubtractX/BatchAddList (one row or one '
     'shift of the group per descriptor, so each batched list mixes infinity, equal, opposite and '
     'generic operands), every element through Negate/Double/DoubleJacobian/BatchDouble, every '
@@ -561,7 +563,7 @@ def _rows(n, full, mat_seed, extra=()):
 
 
 def enum_toy_pairs(tier):
-  full = 320 if tier == 'quick' else 2100
+  full = 320 if tier == 'quick' else 1300
   for ci, (c, form) in enumerate(toy_curves(tier)):
     n = c['n']
     for i in _rows(n, full, n):
@@ -611,8 +613,8 @@ def enum_toy_seq(tier):
   edge = lambda n: [1, 2, 3, 4, 5, n - 1, n, n + 1, 2 * n, 2 * n + 1, 2 * n + 2]
   for ci, (c, form) in enumerate(toy_curves(tier)):
     n = c['n']
-    for i in range(n):
-      if n <= full or i in (0, 1, 2, n - 1):
+    for i in _rows(n, 320 if tier == 'quick' else 700, n + 7):
+      if n <= full or i in ((0, 1, 2, n - 1) if n <= 700 else (0, 1)):
         yield {'op': 'seq', 'c': c, 'f': form, 'i': i, 'counts': 'all', 'mpz': (i + ci) % 2 == 0}
       else:
         yield {'op': 'seq', 'c': c, 'f': form, 'i': i, 'counts': edge(n), 'mpz': (i + ci) % 2 == 0}
